@@ -94,6 +94,7 @@ static struct { char kind; const char *key; const char *target; } g_fs_map[FS_MA
 static int g_fs_map_n;
 static const char *g_hostname;
 static const char *g_disk_dir;    /* simulated disk: where expansions' writes land */
+static const char *g_exe_name;    /* what /proc/self/exe points to, as far as an expansion can tell */
 static int g_have_uid, g_have_ncpu;
 static long g_uid, g_ncpu;
 
@@ -122,6 +123,7 @@ static void init(void) {
     if ((s = raw_getenv("SIM_PID"))) { g_have_pid = 1; g_pid = strtol(s, NULL, 10); }
     g_hostname = raw_getenv("SIM_HOSTNAME");
     g_disk_dir = raw_getenv("SIM_DISK_DIR");
+    g_exe_name = raw_getenv("SIM_EXE_NAME");
     if ((s = raw_getenv("SIM_UID"))) { g_have_uid = 1; g_uid = strtol(s, NULL, 10); }
     if ((s = raw_getenv("SIM_NCPU"))) { g_have_ncpu = 1; g_ncpu = strtol(s, NULL, 10); if (g_ncpu < 1) g_ncpu = 1; }
     /* SIM_FS_MAP: lines "<kind>\t<key>\t<target>"; kind R = redirect to target, N = absent.
@@ -421,6 +423,14 @@ int faccessat(int dirfd, const char *path, int mode, int flags) {
 }
 ssize_t readlink(const char *path, char *buf, size_t n) {
     init();
+    if (g_in_expansion && g_exe_name && path && (strcmp(path, "/proc/self/exe") == 0 || strcmp(path, "/proc/curproc/file") == 0)) {
+        /* which program is hosting the expander (rustc, a proc-macro server, clippy-driver, ...) */
+        note_fs(path);
+        size_t l = strlen(g_exe_name);
+        if (l > n) l = n;
+        memcpy(buf, g_exe_name, l);
+        return (ssize_t)l;
+    }
     const char *t = path;
     if (fs_lookup(path, &t) < 0) { errno = ENOENT; return -1; }
     return syscall(SYS_readlinkat, AT_FDCWD, t, buf, n);
